@@ -27,17 +27,32 @@ def tasks(tier):
                     continue
                 ts.append(Task('verifHarness_C05_arbitrary', [L, mode, inj]))
     ts.sort(key=lambda t: -t.args[0])
+    # B: structured streams (two frames, noise around them)
+    if tier == 'quick':
+        combos = [(0, 1, 1, 2, 101, 0), (1, 0, 2, 1, 10, 0), (2, 3, 0, 0, 111, 0), (0, 2, 2, 0, 1, 1), (1, 1, 1, 1, 100, 1), (2, 1, 2, 2, 10, 1)]
+    else:
+        combos = []
+        for k1 in (0, 1, 2):
+            for k2 in (0, 1, 2):
+                for n1, n2 in ((0, 1), (1, 3), (2, 0), (3, 2)):
+                    for noise in (0, 1, 10, 100, 111, 212):
+                        for mode in (0, 1, 2):
+                            if mode == 2 and (noise not in (0, 111) or n1 > 1):
+                                continue
+                            combos.append((k1, n1, k2, n2, noise, mode))
+    ts = [Task('verifHarness_C05_structured', list(c)) for c in combos] + ts
     return ts
 
 
 def required_reach(tier):
-    return ['C05/A']
+    return ['C05/A', 'C05/B']
 
 
 def bounds(tier):
     lmax, maxmode = params(tier)
     return {'stream_length': 'every length 0..%d, every byte symbolic' % lmax,
             'segmentations': 'reference reader: one chunk; second reader: all 1-byte chunks, and every placement of up to %d cut points' % maxmode,
+            'structured_streams': 'two frames (v1 / v2 / signed v2, payload 0..3, all contents symbolic) with 0..2 non-marker noise bytes before, between and after; second reader fed 1-byte chunks or with ' + ('one' if tier == 'quick' else 'one or two') + ' arbitrary cut point(s); ' + ('6 layouts' if tier == 'quick' else 'all kind pairs x 4 length pairs x 6 noise layouts'),
             'transport_end': 'io.EOF, and a non-EOF error after the last byte (= an error injected at every offset, since every length is explored)',
             'dialect_and_key': 'none (gates are C02/C06)'}
 
